@@ -88,6 +88,9 @@ type Options struct {
 	Perturb int                 // 0 none, 1 random delays at hooks
 	Defs    *schema.Definitions // optional pre-built definitions (round-trip checks)
 	Sub2    bool                // attach a second subscriber and compare the two streams
+	// RoundTrip: serialise the parsed definitions, parse that again, compare the two
+	// models structurally and run the instance on the re-parsed model (C15)
+	RoundTrip bool
 }
 
 func DefaultOptions() Options {
@@ -362,6 +365,14 @@ func Run(runIdx int, p *prog.Program, sch *Schedule, o Options) []Rec {
 			return r.log
 		}
 	}
+	var rtRec *Rec
+	if o.RoundTrip {
+		defs2, rec := RoundTrip(defs, render.XML(p, render.Options{Lang: o.Lang}))
+		rtRec = &rec
+		if defs2 != nil {
+			defs = defs2
+		}
+	}
 	ctx, cancel := context.WithCancel(context.Background())
 	defer cancel()
 
@@ -410,6 +421,9 @@ func Run(runIdx int, p *prog.Program, sch *Schedule, o Options) []Rec {
 
 	r.mu.Lock()
 	r.add(Rec{Ev: "init", N: sch.Prog, Vars: copyVars(p.Vars0), Kind: p.Name})
+	if rtRec != nil {
+		r.add(*rtRec)
+	}
 	r.mu.Unlock()
 
 	startOK := callWithin(o.T, func() {
